@@ -365,8 +365,8 @@ pub fn c13_pred_tree_unconstrained() {
 }
 
 // AdjacencyMatrix::empty(any order >= 2) + add_arc + has_arc + remove_arc.
-// Release semantics (wrapping arithmetic): Kani runs this one with --no-overflow-checks.
-// @verif prop=C13 tier=quick fl=f0 role=order-overflow/matrix t=900 mem=12 miri=1 allow=panic kani=--no-overflow-checks checks=full
+// Kani models the dev profile: a failed overflow check here is a candidate that the release replay decides.
+// @verif prop=C13 tier=quick fl=f0 role=order-overflow/matrix t=900 mem=12 miri=1 allow=panic checks=full
 #[cfg_attr(kani, kani::proof)]
 #[cfg_attr(kani, kani::unwind(8))]
 pub fn c13_matrix_any_order() {
